@@ -164,6 +164,9 @@ type ExitSpec struct {
 	// IncludePanic makes explicit panic instructions count as exits that need
 	// a gate (with an armed defer they are discharged).
 	IncludePanic bool
+	// AlsoExits: reaching one of these instructions counts as an exit that
+	// needs a gate (e.g. the next receive of a loop).
+	AlsoExits map[ssa.Instruction]bool
 }
 
 // AllExits reports whether every path from just after `from` to a function
@@ -228,6 +231,9 @@ func allExitsFrom(start *ssa.BasicBlock, idx int, armed bool, spec ExitSpec) (bo
 			if g.Instrs[in] {
 				blocked = true
 				break
+			}
+			if spec.AlsoExits[in] {
+				return false, []int{b.Index}
 			}
 			switch x := in.(type) {
 			case *ssa.Defer:
